@@ -2,9 +2,9 @@
 
 import random
 
-from eliot import add_destinations, remove_destination
+from eliot import add_destinations, log_message, remove_destination, start_action
 
-from vf import faults, gen, oracles
+from vf import excs, faults, gen, oracles
 from vf.interp import Interp
 from vf.runner import h
 from vf.tape import MaskedDestination, Recorder, Tape
@@ -24,7 +24,7 @@ RULE = ("part 'faults': ProgGen programs (no failing serializers) run single-thr
         "satisfies the invariants. The healthy destination's tape (plus serialize_task_id reservation events) must satisfy: "
         "well-formed metadata, run-wide unique (task_uuid, task_level), positions exactly 1..n per action with start at 1 "
         "and end at n, first uses in increasing order, end message last. non-trivial = >=1 destination-failure report "
-        "inserted into a tree of depth >=2, or >=2 concurrently active contexts; distinct by hash of (program shape, masks)")
+        "inserted into a tree of depth >=2, or >=2 concurrently active contexts; distinct by hash of (program shape, masks). part 'ordered': deterministic single-thread scenarios in which eliot emits a message while handling another (a failure report during the replay of a start-up buffer held inside an open action; a healthy field serializer that logs): the accepting destination must still see level order (recorded findings)")
 ASSUMPTIONS = ["programs are well-formed: no logging into finished actions, each serialized id continued once",
                "emission order is compared with position order on first use (allocation), since a remote child's messages "
                "are legitimately emitted after the reservation"]
@@ -40,6 +40,7 @@ def plan(tier, seed):
     specs += [{"part": "extractors", "seed": seed, "i": i} for i in range(m)]
     q = 600 if tier == "quick" else 6000
     specs += [{"part": part, "seed": seed, "lo": i, "hi": min(q, i + 100)} for part in ("foreign", "badid") for i in range(0, q, 100)]
+    specs += [{"part": "ordered", "seed": seed, "i": i} for i in range(8 if tier == "quick" else 40)]  # (one fresh process each: start-up buffer)
     return specs
 
 
@@ -441,10 +442,69 @@ def one_badid(seed, i, res):
             "tape": [{k: m.get(k) for k in ("task_uuid", "task_level", "message_type", "action_type", "action_status")} for m in got][:40]}})
 
 
+def part_ordered(spec, res):
+    """Two deterministic single-thread scenarios in which a message is EMITTED by eliot itself in the middle of handling another one
+    (recorded findings, see KNOWN_FINDINGS.json): what the healthy destination observes must still be in level order inside every action.
+    kind 'replay_report': messages buffered inside a still open action, first add_destinations(bad, good), bad fails on one of the
+    buffered messages. kind 'logging_serializer': a typed field whose serializer (healthy) logs through a log_call helper."""
+    from eliot import ActionType, Field, MessageType, log_call
+    rng = random.Random("%s:C02:ordered:%d" % (spec["seed"], spec["i"]))
+    kind = ["replay_report", "logging_serializer"][spec["i"] % 2]
+    good = []
+    problems = []
+    if kind == "replay_report":
+        nbuf = rng.randint(2, 5)
+        fail_at = rng.randrange(nbuf)
+        seen = [0]
+
+        def bad(m):
+            seen[0] += 1
+            if seen[0] == fail_at + 1:
+                raise excs.DestFault("fails on buffered message %d" % fail_at)
+        dests = [bad, good.append]
+        with start_action(action_type="o:act"):
+            for k in range(nbuf - 1):
+                log_message(message_type="o:m", k=k)
+            add_destinations(*dests)
+            log_message(message_type="o:after")
+    else:
+        @log_call(action_type="o:helper")
+        def helper(v):
+            return "<%s>" % (v,)
+        mt = MessageType("o:typed", [Field("v", helper, "a field whose serializer logs")], "typed")
+        dests = [good.append]
+        add_destinations(*dests)
+        with start_action(action_type="o:act") as act:
+            log_message(message_type="o:m", k=0)
+            if rng.random() < 0.5:
+                mt.log(v=rng.randint(1, 9))
+            else:
+                act.log(message_type="o:plain")
+                mt(v=rng.randint(1, 9)).write()
+            log_message(message_type="o:after")
+    for d in dests:
+        remove_destination(d)
+    res["evals"] += 1
+    c = res["counters"]
+    c["ordered_scenarios_" + kind] = c.get("ordered_scenarios_" + kind, 0) + 1
+    levels = [tuple(m["task_level"]) for m in good]
+    if len(set((m["task_uuid"], tuple(m["task_level"])) for m in good)) != len(good):
+        problems.append("%s: two messages share (task_uuid, task_level): %s" % (kind, levels))
+        mech = None
+    elif levels != sorted(levels):
+        problems.append("%s: the destination that accepted every message observed task_levels %s: emission order is not level order" % (kind, [list(l) for l in levels]))
+        mech = {"replay_report": "report-overtakes-replayed-buffer", "logging_serializer": "serializer-that-logs"}[kind]
+    if problems:
+        res["violations"].append({"msg": problems[0], "mech": mech, "detail": {"part": "ordered", "kind": kind, "levels": [list(l) for l in levels]}})
+
+
 def run_case(spec):
     res = {"evals": 0, "nontrivial": [], "counters": {}, "violations": [], "sample": None}
     if spec["part"] == "extractors":
         one_extractors(spec, res)
+        return res
+    if spec["part"] == "ordered":
+        part_ordered(spec, res)
         return res
     if spec["part"] in ("foreign", "badid"):
         for i in range(spec["lo"], spec["hi"]):
